@@ -58,6 +58,17 @@ def generate(repo):
         raise TranslateError("scan loop: declaration of tempDisp not found")
     em = Emitter("Rat", {"max_disp": "max_disp", "max2": "max2", "tempDisp": "tempDisp", "m_skin_size": "m_skin_size", "newList": "newList"})
     scan = ssa_block(em, core, ["max_disp", "max2", "newList"], bool_vars=("newList",))
+    # --- scope and initial value of the scan state: declared (= 0) before the loop over colours, so that the two largest
+    #     displacements are taken over ALL species
+    scope_txt = body[i_every.end():]
+    mloop = re.search(r"for\s*\(\s*size_t\s+c\s*=\s*0", scope_txt)
+    md1 = re.search(r"double\s+max_disp\s*=\s*([^;]*);", scope_txt)
+    md2 = re.search(r"double\s+max2\s*=\s*([^;]*);", scope_txt)
+    if not (mloop and md1 and md2):
+        raise TranslateError("declarations of max_disp / max2 or the colour loop not found")
+    outside = md1.start() < mloop.start() and md2.start() < mloop.start()
+    init1 = Emitter("Rat", {}).emit(parse_expr(md1.group(1)))
+    init2 = Emitter("Rat", {}).emit(parse_expr(md2.group(1)))
     # --- counter mode decision
     m = re.search(r"newList\s*=\s*([^;]*m_counter[^;]*);", body[i_every.end():])
     if not m:
@@ -129,6 +140,11 @@ namespace Sympler.Gen.Verlet
 def scanBody (m_skin_size : Rat) (max_disp max2 : Rat) (tempDisp : Rat) : Rat × Rat × Bool :=
 %s
 
+/-- are `max_disp` and `max2` declared before the loop over colours (state shared by all species)? -/
+def scanStateSharedByAllColours : Bool := %s
+/-- initial values `double max_disp = …; double max2 = …;` -/
+def scanInit : Rat × Rat := (%s, %s)
+
 /-- `newList = %s` (counter mode, `m_every > 0`) -/
 def everyDecision (m_counter m_every : Nat) : Bool :=
   %s
@@ -151,7 +167,7 @@ def refreshWrapGuardedByPeriodicity : Bool := %s
 def listCutoff (cutoff m_skin_size : Rat) : Rat := %s
 
 end Sympler.Gen.Verlet
-""" % (scan, m.group(1).strip(), every, mr.group(1), mr.group(1), refresh_counter, wrapline(first[0]), wrapline(first[1]),
+""" % (scan, "true" if outside else "false", init1, init2, m.group(1).strip(), every, mr.group(1), mr.group(1), refresh_counter, wrapline(first[0]), wrapline(first[1]),
        "true" if guarded else "false", mc.group(1).strip(), lc)
 
 
